@@ -39,20 +39,20 @@ func RunSeed(base uint64, index uint64) uint64 { return splitmix(base ^ splitmix
 
 // ReplayFile is the on-disk replay contract (DESIGN.md appendix B).
 type ReplayFile struct {
-	Version   int              `json:"version"`
-	Property  string           `json:"property"`
-	World     string           `json:"world"`
-	Mode      string           `json:"mode,omitempty"`
+	Version   int               `json:"version"`
+	Property  string            `json:"property"`
+	World     string            `json:"world"`
+	Mode      string            `json:"mode,omitempty"`
 	Params    map[string]string `json:"params,omitempty"`
-	Seed      uint64           `json:"seed"`
-	Choices   []int            `json:"choices"`
-	Kinds     []string         `json:"kinds,omitempty"`
-	Decoded   any              `json:"decoded,omitempty"`
-	Violation *simrt.Violation `json:"violation,omitempty"`
-	TraceHash string           `json:"trace_hash,omitempty"`
-	Trace     []simrt.Step     `json:"trace,omitempty"`
-	Shrunk    bool             `json:"shrunk,omitempty"`
-	Note      string           `json:"note,omitempty"`
+	Seed      uint64            `json:"seed"`
+	Choices   []int             `json:"choices"`
+	Kinds     []string          `json:"kinds,omitempty"`
+	Decoded   any               `json:"decoded,omitempty"`
+	Violation *simrt.Violation  `json:"violation,omitempty"`
+	TraceHash string            `json:"trace_hash,omitempty"`
+	Trace     []simrt.Step      `json:"trace,omitempty"`
+	Shrunk    bool              `json:"shrunk,omitempty"`
+	Note      string            `json:"note,omitempty"`
 }
 
 func worldFactory(name string, params map[string]string) func() World {
